@@ -3,10 +3,13 @@ package main
 import (
 	"fmt"
 	"os"
+	"strings"
 	"time"
 
 	"verif/internal/vg"
 )
+
+var debugCmds = map[string]func([]string){}
 
 func main() {
 	if len(os.Args) < 2 {
@@ -17,6 +20,10 @@ func main() {
 	case "smoke":
 		smoke()
 	default:
+		if f, ok := debugCmds[os.Args[1]]; ok {
+			f(os.Args[2:])
+			return
+		}
 		os.Exit(vg.RunWorker(os.Args[1:]))
 	}
 }
@@ -77,4 +84,135 @@ func smoke() {
 		g.Stop()
 	}
 	fmt.Printf("%d scenarios in %v\n", n, time.Since(t0))
+}
+
+func init() {
+	debugCmds["hist"] = func(args []string) {
+		n, seed := 100, uint64(1)
+		mode := "seq"
+		if len(args) > 0 {
+			fmt.Sscan(args[0], &n)
+		}
+		if len(args) > 1 {
+			fmt.Sscan(args[1], &seed)
+		}
+		if len(args) > 2 {
+			mode = args[2]
+		}
+		t0 := time.Now()
+		sigs := map[uint64]bool{}
+		nv := 0
+		shown := 0
+		bySig := map[string]int{}
+		for i := 0; i < n; i++ {
+			cfg := vg.HistCfg{Seed: seed*1000003 + uint64(i), Conns: 2, Versions: []string{"1.2.3", "", "1.2.0"}, NRes: 5, PColl: 35, PErr: 8, PRef: 30,
+				Steps: 30, Mode: mode, Burst: 6, Pct: 25, AvoidF: true}
+			res := vg.RunHistory(cfg)
+			sigs[res.Sig] = true
+			if res.Inconclusive != "" {
+				fmt.Println("INCONCLUSIVE", cfg.Seed, res.Inconclusive)
+			}
+			for _, v := range res.Viol {
+				bySig[v.Prop+"/"+v.Sig]++
+			}
+			match := len(res.Viol) > 0
+			if flt := os.Getenv("VG_FILTER"); flt != "" {
+				match = false
+				for _, v := range res.Viol {
+					if strings.Contains(v.Prop+"/"+v.Sig+"$", flt) {
+						match = true
+					}
+				}
+			}
+			if len(res.Viol) > 0 {
+				nv++
+			}
+			if match {
+				shown++
+				if shown <= 2 {
+					fmt.Printf("--- seed %d\n", cfg.Seed)
+					for _, s := range res.Steps {
+						fmt.Println("  ", s)
+					}
+					for _, v := range res.Viol {
+						fmt.Println("  VIOL", v)
+					}
+				}
+			}
+		}
+		fmt.Printf("%d histories, %d with violations, %d distinct sigs, %v\n", n, nv, len(sigs), time.Since(t0))
+		fmt.Println(bySig)
+	}
+}
+
+func init() {
+	debugCmds["hist1"] = func(args []string) {
+		var seed uint64
+		mode := "seq"
+		fmt.Sscan(args[0], &seed)
+		if len(args) > 1 {
+			mode = args[1]
+		}
+		cfg := vg.HistCfg{Seed: seed, Conns: 2, Versions: []string{"1.2.3", "", "1.2.0"}, NRes: 5, PColl: 35, PErr: 8, PRef: 30,
+			Steps: 30, Mode: mode, Burst: 6, Pct: 25, AvoidF: true, Trace: true}
+		reps := 1
+		if len(args) > 2 {
+			fmt.Sscan(args[2], &reps)
+		}
+		var res *vg.HistResult
+		for i := 0; i < reps; i++ {
+			res = vg.RunHistory(cfg)
+			match := false
+			for _, v := range res.Viol {
+				if strings.Contains(v.Prop+"/"+v.Sig+"$", os.Getenv("VG_FILTER")) {
+					match = true
+				}
+			}
+			if match {
+				fmt.Println("reproduced at rep", i)
+				break
+			}
+		}
+		for _, s := range res.Steps {
+			fmt.Println("  ", s)
+		}
+		for _, s := range res.BusLog {
+			fmt.Println("  BUS", s)
+		}
+		for c, fs := range res.Frames {
+			for _, f := range fs {
+				fmt.Println("  FRAME", c, f)
+			}
+		}
+		for _, s := range res.ErrLog {
+			fmt.Println("  ERRLOG", s)
+		}
+		for _, v := range res.Viol {
+			fmt.Println("  VIOL", v)
+		}
+		fmt.Println(res.Inconclusive)
+	}
+}
+
+func init() {
+	debugCmds["directed"] = func(args []string) {
+		for _, d := range vg.DirectedScenarios {
+			if len(args) > 0 && args[0] != d.Name {
+				continue
+			}
+			res := d.Run(1)
+			fmt.Println("==", d.Name, d.Prop, "viol:", len(res.Viol), res.Inconclusive)
+			for _, s := range res.Steps {
+				fmt.Println("  ", s)
+			}
+			for c, fs := range res.Frames {
+				for _, f := range fs {
+					fmt.Println("  FRAME", c, f)
+				}
+			}
+			for _, v := range res.Viol {
+				fmt.Println("  VIOL", v)
+			}
+		}
+	}
 }
